@@ -344,6 +344,18 @@ class ConnRun:
 
         self.inject("CancelCall", {"id": id_}, fn)
 
+    def ev_flow(self, paused: bool):
+        """The transport signals flow control to the protocol (its write buffer crossed a water mark)."""
+
+        def fn():
+            tr = self.w.tr
+            if tr is None or tr.is_closing() or not getattr(tr, "_protocol_connected", True):
+                return False
+            p = tr.protocol
+            (p.pause_writing if paused else p.resume_writing)()
+
+        self.inject("EnvFlow", {"paused": bool(paused)}, fn)
+
     def ev_send(self, name: str):
         conn = self.w.conn
 
@@ -572,6 +584,8 @@ def random_schedule(rng: random.Random, cfg: dict, n_events: int, p_fault: float
             story.append(("ev", "sub", rng.choice((1, 2)), rng.choice(("A", "B")), rng.choice(("none", "none", "unsub_self", "unsub_other", "sub_new"))))
         elif subs and r < 0.45:
             story.append(("ev", "unsub", rng.choice((1, 2))))
+        elif r < 0.5:
+            story.append(("ev", "flow", rng.random() < 0.6))
         else:
             story.append(("ev", "chunk", [rng.choice(TRAFFIC) for _ in range(rng.randrange(1, 4))] + ([rng.choice(CLOSERS)] if rng.random() < 0.1 else []) + ([rng.choice(TRAFFIC)] if rng.random() < 0.5 else [])))
     for ev in story:
@@ -725,6 +739,8 @@ def c10_family(quick: bool, rng: random.Random, n: int) -> list:
         p2 = rng.choice((p1, 0.0, 0.0, 0.05))
         p_send = rng.choice((0.0, 0.0, 0.05, 0.2))
         switch = rng.randrange(0, periods * (K // g))
+        p_flow = rng.choice((0.0, 0.0, 0.01, 0.05))
+        paused = False
         st = happy_connect(cfg)
         steps = periods * (K // g)
         pending = 0
@@ -743,6 +759,13 @@ def c10_family(quick: bool, rng: random.Random, n: int) -> list:
                 st.append(("advx" if rng.random() < 0.5 else "adv", pending))
                 pending = 0
                 st.append(("ev", "send", "SwitchCommandRequest"))
+                st.append(("idle",))
+            elif p_flow and rng.random() < p_flow:
+                # flow-control signals of the transport are no sign of life and no excuse for silence
+                st.append(("advx" if rng.random() < 0.5 else "adv", pending))
+                pending = 0
+                paused = not paused
+                st.append(("ev", "flow", paused))
                 st.append(("idle",))
         st += [("adv", pending), ("idle",)]
         if rng.random() < 0.5:
